@@ -11,6 +11,7 @@ EXPLANATION = [
     'C03.ll-coverage: every link-layer control PDU class the virtual controller constructs in a send_ll_control_pdu call has a matching `case` in on_ll_control_pdu (otherwise the HCI procedure that sent it is accepted as pending and never concluded, in one of the two roles).',
     'C03.host-complete: a Command Complete that only carries credits (opcode 0) never concludes the pending command: on_command_processed / set_result are reached only on paths where `event.command_opcode == 0` is excluded (symbolic path facts); the pending future is resolved once, under `if self.pending_response`.',
     'C03.lmp-answers: each classic LMP request the virtual controller accepts is answered by exactly one response naming that request; the responder side answers the request it received, and in every function unit of a responder (method body or nested callback) no path reaches the local conclusion of the procedure (or the normal exit) without the LMP answer having been sent or handed to a nested callback that sends it on all its paths.',
+    'C03.solicited-replies: for every HCI event with which the virtual controller asks its host to accept or refuse a procedure a peer has pending (Connection Request, LE CIS Request) the controller implements every reply command of the specification, and a refusal is sent on to the peer.',
     'C03.host-send: typestate walk of Host._send_command over all normal and '
     'exceptional exits (acquire -> pending slots set -> send; every exit clears '
     'both slots and reaches the release), who-may-send census of '
@@ -851,6 +852,40 @@ def lmp_answers(ctx):
 
 
 
+# HCI events with which a controller asks its host to decide about a procedure that a *peer* has pending, and the
+# commands with which the host answers (Core Vol 4 Part E 7.7.4, 7.7.65.25).  A controller that raises the event but
+# does not implement a reply command answers UNKNOWN_HCI_COMMAND to its own host and never tells the peer.
+SOLICITED = {
+    'HCI_Connection_Request_Event': ('HCI_Accept_Connection_Request_Command', 'HCI_Reject_Connection_Request_Command'),
+    'HCI_LE_CIS_Request_Event': ('HCI_LE_Accept_CIS_Request_Command', 'HCI_LE_Reject_CIS_Request_Command'),
+}
+
+
+def solicited_replies(ctx):
+    R, p = ctx.r, ctx.p
+    rule = 'C03.solicited-replies'
+    ctl = p.cls(CTRL)
+    if ctl is None:
+        R.bad(rule, CTRL, 'anchor missing')
+        return
+    raised = {call_attr(c) for m in ctl.methods.values() for c in calls_in(m, include_lambda=True)}
+    n = 0
+    for ev, replies in sorted(SOLICITED.items()):
+        if ev not in raised:
+            continue
+        for cmd in replies:
+            n += 1
+            h = 'on_' + cmd.lower()
+            fn = ctl.methods.get(h)
+            R.check(fn is not None, rule, f'{CTRL} | {ev} -> {cmd}', f'the controller raises {ev} and implements the reply {cmd}',
+                    f'the controller raises {ev} but has no handler for {cmd}: the host\'s refusal is answered with UNKNOWN_HCI_COMMAND, nothing is sent to the peer and the peer\'s pending procedure is never concluded', p.loc(ctl.node))
+            if fn is not None and 'reject' in h:
+                # a refusal tells the peer
+                tells = any(call_attr(c) in ('send_lmp_packet', 'send_ll_control_pdu') for c in calls_in(fn, include_lambda=True))
+                R.check(tells, rule, f'{CTRL}.{h} | peer told', 'the refusal is sent to the peer', 'the refusal is concluded locally only: the peer keeps waiting', p.loc(fn))
+    R.check(n >= 4, rule, f'{CTRL} | soliciting events', f'{n} (event, reply command) pairs examined', f'only {n} pairs examined')
+
+
 def host_complete(ctx):
     """A Command Complete with opcode 0 only carries credits: it must not conclude the pending command."""
     from .. import sym
@@ -915,6 +950,7 @@ RULES = [
     ('C03.ll-coverage', ll_coverage),
     ('C03.host-complete', host_complete),
     ('C03.lmp-answers', lmp_answers),
+    ('C03.solicited-replies', solicited_replies),
     ('C03.host-send', host_send),
     ('C03.controller-reply', controller_reply),
     ('C03.procedures', procedures),
